@@ -24,6 +24,7 @@ class Rec:
         self.ctr = Counter()
         self.inconclusive = []
         self.maxima = {}
+        self.reached = set()     # library functions that executed (sys.monitoring PY_START)
 
     # ---- recording -------------------------------------------------
     def ev(self, n=1):
@@ -72,6 +73,7 @@ class Rec:
             "ctr": dict(self.ctr),
             "inconclusive": self.inconclusive,
             "maxima": self.maxima,
+            "reached": sorted(self.reached),
         }
 
     def merge_dump(self, d):
@@ -86,6 +88,7 @@ class Rec:
             self.inconc(r)
         for k, v in d["maxima"].items():
             self.maxi(k, v)
+        self.reached.update(d.get("reached", ()))
 
     @property
     def distinct_nontrivial(self):
